@@ -23,6 +23,8 @@ func init() {
 		{Name: "filter-qos-test-weakened", Rule: "R17.1", Where: "(*TopicFilter).WellFormed", Edits: []Edit{{"topicfilter.go", "\tif c.options.Has(byte(OptQoS3)) {\n\t\treturn newMalformed(c, \"QoS\", \"invalid\")", "\tif c.options.Has(byte(OptQoS1)) {\n\t\treturn newMalformed(c, \"QoS\", \"invalid\")"}}},
 		{Name: "subid-limit-checked-through-signed-accessor", Rule: "R17.1", Where: "(*Subscribe).WellFormed", Edits: []Edit{{"subscribe.go", "if v := p.subscriptionID; v != nil && *v > 268_435_455 {", "if p.SubscriptionID() > 268_435_455 {"}}},
 		{Name: "subid-limit-off-by-one", Rule: "R17.1", Where: "(*Subscribe).WellFormed", Edits: []Edit{{"subscribe.go", "*v > 268_435_455 {", "*v > 268_435_456 {"}}},
+		{Name: "adv4-E-only-the-first-four-filters-checked", Rule: "R17.1", Where: "(*Subscribe).WellFormed", Edits: []Edit{{"subscribe.go", "\tfor _, f := range p.filters {\n\t\tif err := f.WellFormed(); err != nil {", "\tfor i, f := range p.filters {\n\t\tif i == 4 {\n\t\t\tbreak\n\t\t}\n\t\tif err := f.WellFormed(); err != nil {"}}},
+		{Name: "filters-checked-last-to-first", Silent: true, Edits: []Edit{{"subscribe.go", "\tfor _, f := range p.filters {\n\t\tif err := f.WellFormed(); err != nil {", "\tfor i := len(p.filters) - 1; i >= 0; i-- {\n\t\tf := p.filters[i]\n\t\tif err := f.WellFormed(); err != nil {"}}},
 		{Name: "only-first-filter-checked", Rule: "R17.1", Where: "(*Subscribe).WellFormed", Edits: []Edit{{"subscribe.go", "\tfor _, f := range p.filters {\n\t\tif err := f.WellFormed(); err != nil {\n\t\t\treturn err\n\t\t}\n\t}\n\treturn nil", "\tfor _, f := range p.filters {\n\t\treturn f.WellFormed()\n\t}\n\treturn nil"}}},
 		{Name: "string-skips-withform", Rule: "R17.2", Where: "(*Subscribe).String", Edits: []Edit{{"subscribe.go", "\treturn withForm(p, fmt.Sprintf(\"%s p%v %s %v bytes\",\n\t\tfirstByte(p.fixed).String(),\n\t\tp.packetID,\n\t\tp.filterString(),\n\t\tp.width(),\n\t))", "\treturn fmt.Sprintf(\"%s p%v %s %v bytes\",\n\t\tfirstByte(p.fixed).String(),\n\t\tp.packetID,\n\t\tp.filterString(),\n\t\tp.width(),\n\t)"}}},
 		{Name: "withform-inverted", Rule: "R17.2", Where: "withForm", Edits: []Edit{{"errors.go", "\tif err := p.WellFormed(); err != nil {\n\t\treturn fmt.Sprintf(\"%s, malformed! %s %s\", v, err.reason, err.ref)\n\t}\n\treturn v", "\tif err := p.WellFormed(); err != nil {\n\t\treturn v\n\t}\n\treturn fmt.Sprintf(\"%s, malformed! %s %s\", v, \"\", \"\")"}}},
@@ -452,12 +454,12 @@ func checkSubscribeWF(p *Prog, c *Check) {
 	n := 0
 	bad := ""
 	extraSub := map[string]bool{}
-	// numbers of filters: 0–3 with every combination of the atoms, and — with all filters valid — the neighbourhood of
-	// every constant the predicate (or what it calls) compares anything with (a rule such as "at most 32 filters"
+	// numbers of filters: 0–3 with every combination of the atoms, and — with all filters but the last valid — 4, 5 and
+	// the neighbourhood of every constant the predicate (or what it calls) compares anything with (a rule such as "at most 32 filters"
 	// shows at 33)
-	nfs := []int64{0, 1, 2, 3}
+	nfs := []int64{0, 1, 2, 3, 4, 5}
 	for _, k := range p.cmpConstsFor(fn) {
-		if k > 3 && k <= 300 {
+		if k > 5 && k <= 300 {
 			nfs = append(nfs, k)
 		}
 	}
@@ -488,6 +490,10 @@ func checkSubscribeWF(p *Prog, c *Check) {
 				}
 				if nf > 3 {
 					dom[kf], dom[ko] = lens(1), ints(1)
+					if k == nf-1 {
+						// … except the last one: a predicate that stops looking after the first few filters
+						dom[kf], dom[ko] = lens(0, 1), ints(1, 3)
+					}
 				}
 			}
 			product(keys, dom, func(a symAssign) bool {
